@@ -274,6 +274,8 @@ def run_property(prop, tier, seed, only=None, replay_meta=None):
     env = dict(os.environ)
     env["GOTRACEBACK"] = "all"
     env["VERIF_REPO_DIR"] = repo
+    if cfg.get("needs_cli"):
+        env["VERIF_J5_BIN"] = B.build_cli(quiet=True)
     env["GOMAXPROCS"] = str(cfg.get("gomaxprocs", 2))
     if race:
         env["GORACE"] = "halt_on_error=0 exitcode=0 log_path=%s/race" % outdir
